@@ -217,6 +217,56 @@ fn c12_overlay_parent_rejected(dir: &str, nonblocking: bool) -> bool {
     rejected && root_unchanged && k7 == None
 }
 
+/// C14 (driver): build the database that `c14_commit_for_injection` commits to.
+fn c14_prepare(dir: &str) -> bool {
+    let _ = std::fs::remove_dir_all(dir);
+    let db: Db = Nomt::open(opts(dir, true)).unwrap();
+    let mut w = vec![];
+    for i in 0..60u8 {
+        w.push((key(i), Some(vec![i; 24])));
+    }
+    w.push((key(200), Some(vec![7u8; 20_000])));
+    commit(&db, w);
+    true
+}
+
+/// C14 (driver, run under strace fault injection): open the prepared database and commit a batch that
+/// touches every file (leaf + overflow pages, branch pages, hash-table pages, WAL, rollback segment,
+/// meta). Prints what the caller saw; the caller decides.
+fn c14_commit_for_injection(dir: &str) -> bool {
+    let db: Db = match Nomt::open(opts(dir, true)) {
+        Ok(db) => db,
+        Err(e) => {
+            println!("verif-result open=err {}", e);
+            return true;
+        }
+    };
+    let s = db.begin_session(SessionParams::default());
+    let mut w = vec![];
+    for i in 30..120u8 {
+        w.push((key(i), KeyReadWrite::Write(Some(vec![i ^ 0x55; 40]))));
+    }
+    w.push((key(200), KeyReadWrite::Write(Some(vec![9u8; 30_000]))));
+    w.push((key(201), KeyReadWrite::Write(Some(vec![3u8; 9_000]))));
+    w.sort_by(|a, b| a.0.cmp(&b.0));
+    let r = s.finish(w).unwrap().commit(&db);
+    let t_ret = std::time::SystemTime::now().duration_since(std::time::UNIX_EPOCH).unwrap().as_micros();
+    let poisoned = db.is_poisoned();
+    // only a failed commit is followed by another attempt (which a poisoned handle must refuse)
+    let next = if r.is_err() {
+        let s = db.begin_session(SessionParams::default());
+        let n = s.finish(vec![(key(250), KeyReadWrite::Write(Some(vec![1])))]).unwrap().commit(&db);
+        if n.is_ok() { "accepted" } else { "refused" }
+    } else {
+        "n/a"
+    };
+    println!("verif-result open=ok commit={} poisoned={} next={} t_commit_returned={}", if r.is_ok() { "Ok" } else { "Err" }, poisoned, next, t_ret);
+    if let Err(e) = &r {
+        println!("verif-error {}", e.to_string().replace('\n', " "));
+    }
+    true
+}
+
 /// C20 (driver, run under strace): create a fresh database, commit, drop; reopen, commit, drop.
 fn c20_fresh_and_reopen(dir: &str) -> bool {
     let _ = std::fs::remove_dir_all(dir);
@@ -322,6 +372,8 @@ fn main() {
         "c04_two_commits" => c04_two_commits(dir),
         "c20_fresh_and_reopen" => c20_fresh_and_reopen(dir),
         "c20_try_open" => c20_try_open(dir),
+        "c14_prepare" => c14_prepare(dir),
+        "c14_commit_for_injection" => c14_commit_for_injection(dir),
         "c20_drop_with_inflight_io" => c20_drop_with_inflight_io(dir),
         "c20_second_open" => c20_second_open(dir),
         _ => panic!("unknown scenario"),
